@@ -1,7 +1,8 @@
 """C33 No well-formed request from an authenticated client crashes the server (E1 + E4)."""
 import re
 from ..panics import run_e1, stable_lit
-from ..rulelib import edges_where, unreachable_without
+from ..rulelib import edges_where, unreachable_without, result_ctor_sites
+from ..facts import fmt_lit
 from .C39 import make_table_auto, validation_gate, operand_gate
 from ..recursion import check_termination
 
@@ -59,6 +60,34 @@ GUARDED_REVIEWED = {
 }
 
 GUARDED = [
+    (r'^server::address_space::relative_path::find_nodes_relative_path$',
+     'find_nodes_relative_path unwraps relative_path.elements', {
+        r'^server::services::view::ViewService::translate_browse_paths_to_node_ids::\{closure#\d+\}$':
+            ('the request path has elements', [r'relative_path\.elements is not None$', r'relative_path\.elements\) == False$']),
+        r'^server::services::node_management::NodeManagementService::add_node$':
+            ('the path was just parsed by RelativePath::from_str (always Some elements)', [r'^relative_path::from_str\(.*\) is Ok$']),
+        r'^server::address_space::relative_path::find_nodes_relative_path_simple$':
+            'the path comes from RelativePath::from_str, which always builds Some(elements)',
+        r'^server::address_space::relative_path::find_node_from_browse_path(::\{closure#\d+\})*$':
+            'the path is built from a non-empty browse path slice inside the same function',
+     }),
+    (r'^server::subscriptions::monitored_item::MonitoredItem::check_for_events$',
+     'check_for_events panics unless the item filter is an EventFilter', {
+        r'^server::subscriptions::monitored_item::MonitoredItem::check_value$':
+            ('the filter of the item is an EventFilter', [r'^\(\*self\)\.filter is EventFilter$']),
+     }),
+    (r'^server::subscriptions::monitored_item::MonitoredItem::check_value$',
+     'check_value panics when the monitoring mode is Disabled', {
+        r'^server::subscriptions::monitored_item::MonitoredItem::tick$':
+            ('monitoring mode is not Disabled', [r'^\(\*self\)\.monitoring_mode ne MonitoringMode::Disabled$']),
+        r'^server::subscriptions::subscription::Subscription::tick_monitored_items::\{closure#\d+\}$':
+            ('the triggered item is Sampling', [r'monitoring_mode\(.*\) is Sampling$']),
+     }),
+    (r'NotificationMessage>::data_change$',
+     'NotificationMessage::data_change panics without notifications', {
+        r'^server::subscriptions::subscription::Subscription::tick_monitored_items$':
+            ('at least one notification was collected', [r'^len\(monitored_item_notifications\) ne 0$', r'is_empty\(&monitored_item_notifications\) == False$']),
+     }),
     (r'^server::address_space::address_space::AddressSpace::insert_reference$',
      'References::insert_reference panics on a self reference', {
         r'^server::services::node_management::NodeManagementService::add_reference$':
@@ -121,6 +150,30 @@ def check_guarded_calls(ctx, par, rule='E2-guarded-call'):
     r.count('guarded_calls', n)
 
 
+def check_nonempty_results(ctx, rule='E2-nonempty-result'):
+    """callers index `[0]` into the vector find_references hands out (ViewService::browse_node: type_defs[0]): the function
+    must answer None, never Some(empty)"""
+    db, r = ctx.db, ctx.r
+    b = db.body('server::address_space::references::References::find_references')
+    if b is None:
+        r.lost(rule, 'find_references', 'References::find_references not found'); return
+    F = ctx.facts(b)
+    sites = result_ctor_sites(b, 'Some', adt='std::option::Option')
+    sites = [(bb, si, pl) for bb, si, pl in sites if pl[0] == 0 and not pl[1]]
+    if not sites:
+        r.lost(rule, 'find_references:Some', 'no Some(..) result in find_references'); return
+    for n, (bb, si, pl) in enumerate(sites):
+        lits = F.literals_at(bb, si)
+        ok = [l for l, e in lits if (l[0] == 'truth' and l[2] is False and l[1][0] == 'call' and l[1][1].endswith('::is_empty')) or
+              (l[0] == 'cmp' and l[1] in ('ne', 'gt') and l[2][0] == 'len' and F.const_int(l[3]) == 0)]
+        if ok:
+            r.ok(rule, 'find_references:Some#%d' % n, 'Some(result) only under `%s`' % fmt_lit(b, ok[0])[:120], loc=b.loc)
+        else:
+            r.fail(rule, 'find_references:Some#%d' % n, 'find_references can answer Some(empty vector): ViewService::browse_node indexes the answer with [0] '
+                   '(a node with references but no HasTypeDefinition panics a Browse)', loc=b.loc)
+    r.count('nonempty_result_sites', len(sites))
+
+
 def run(ctx):
     r = ctx.r
     r.explanation = ('E1 over everything reachable from the service dispatcher (all services, the built-in method callbacks by class '
@@ -132,6 +185,8 @@ def run(ctx):
     run_e1(ctx, ENTRY, extra_auto=make_table_auto(ctx))
     r.floor('E1-panic', 'panic_sites', r.counts.get('panic_sites', 0), 150)
     check_action_tables(ctx)
+    check_nonempty_results(ctx)
+    r.floor('E2-nonempty-result', 'nonempty_result_sites', r.counts.get('nonempty_result_sites', 0), 1)
     # the dispositions of the event-filter evaluation sites rest on these two gates (shared with C39)
     validation_gate(ctx)
     operand_gate(ctx)
@@ -141,5 +196,5 @@ def run(ctx):
     par = cg.reach(cg.instances_matching(ENTRY))
     n = check_termination(ctx, par)
     check_guarded_calls(ctx, par)
-    r.floor('E2-guarded-call', 'guarded_calls', r.counts.get('guarded_calls', 0), 4)
+    r.floor('E2-guarded-call', 'guarded_calls', r.counts.get('guarded_calls', 0), 10)
     r.floor('E4-recursion', 'recursive_components', n, 8)
